@@ -51,7 +51,13 @@ Definition protect_rtcp (mki_index : Z) : M Z :=
   wr_dst tag_off (auth_compute (k_rtcp_a k) m) ;;;
   ret (u64 (enc_start + enc_len + tag_len + trailer_len + s_mki_size st)).
 
-Definition unprotect_rtcp : M Z :=
+Record cpre := {
+  c_ref : sref; c_ssrc : Z; c_seq : Z; c_cs : cstate; c_conf : bool;
+  c_enc_len : Z; c_tag_len : Z; c_mki : Z
+}.
+
+(* everything up to and including the authentication check: reads the session, writes nothing *)
+Definition unprotect_rtcp_pre : M cpre :=
   b <- get_b ;;
   let len := b_len b in
   let pkt := take (zn len) (cur_src b) in
@@ -69,7 +75,6 @@ Definition unprotect_rtcp : M Z :=
   let tag_len := ak_tag (k_rtcp_a k) in
   (if len <? octets_in_rtcp_header_c + trailer_len + s_mki_size st + tag_len then exit_with st_bad_param else ret tt) ;;;
   let conf := (s_rtcp_serv st =? 1) || (s_rtcp_serv st =? 3) in
-  let enc_start := octets_in_rtcp_header_c in
   let enc_len := len - (octets_in_rtcp_header_c + tag_len + s_mki_size st + trailer_len) in
   let tr_off := len - (tag_len + s_mki_size st + trailer_len) in
   tr <- rd_src tr_off 4 ;;
@@ -93,15 +98,24 @@ Definition unprotect_rtcp : M Z :=
   t <- rd_src (auth_len + s_mki_size st) tag_len ;;
   (if beqb (take (zn tag_len) (tmp_tag ++ zeros (zn tag_len))) t then ret tt else exit_with st_auth_fail) ;;;
   (if b_cap b <? u64 (len - trailer_len - s_mki_size st - tag_len) then exit_with st_buffer_small else ret tt) ;;;
+  ret {| c_ref := r0; c_ssrc := ssrc; c_seq := seq; c_cs := fst pre; c_conf := conf;
+         c_enc_len := enc_len; c_tag_len := tag_len; c_mki := s_mki_size st |}.
+
+Definition unprotect_rtcp_post (u : cpre) : M Z :=
+  b <- get_b ;;
+  let len := b_len b in
+  let enc_start := octets_in_rtcp_header_c in
   (if b_alias b then ret tt else (h <- rd_src 0 enc_start ;; wr_dst 0 h)) ;;;
-  (if conf then
-     d <- rd_src enc_start enc_len ;;
-     let '(s, _, o) := cipher_encrypt (fst pre) d in
+  (if c_conf u then
+     d <- rd_src enc_start (c_enc_len u) ;;
+     let '(s, _, o) := cipher_encrypt (c_cs u) d in
      if negb (s =? st_ok) then exit_with st_cipher_fail else wr_dst enc_start o
    else if b_alias b then ret tt
-   else (d <- rd_src enc_start enc_len ;; wr_dst enc_start d)) ;;;
-  check_direction r0 dir_srtp_receiver_c ;;;
-  r <- materialize r0 ssrc ;;
+   else (d <- rd_src enc_start (c_enc_len u) ;; wr_dst enc_start d)) ;;;
+  check_direction (c_ref u) dir_srtp_receiver_c ;;;
+  r <- materialize (c_ref u) (c_ssrc u) ;;
   st2 <- get_stream r ;;
-  put_stream r (set_rdb st2 (snd (rdb_add (s_rdb st2) seq))) ;;;
-  ret (u64 (len - (tag_len + trailer_len) - s_mki_size st)).
+  put_stream r (set_rdb st2 (snd (rdb_add (s_rdb st2) (c_seq u)))) ;;;
+  ret (u64 (len - (c_tag_len u + trailer_len) - c_mki u)).
+
+Definition unprotect_rtcp : M Z := u <- unprotect_rtcp_pre ;; unprotect_rtcp_post u.
